@@ -86,6 +86,11 @@ for line in bp.stdout.splitlines():
         v.report({"branch": "busy." + pr["type"], "kind": pr["kind"], "detail": ""}, pr,
                  what="expiry under read load: %s key %s still visible: %s" % (pr["type"], pr["key"], pr["detail"]))
 cov["labels_exercised"] = len(labels)
+# ---- deadline commands of two or three clients on one key under every TLC-enumerated schedule (lib/sched.py, family "deadline"):
+# the options of EXPIRE are conditions on the deadline the key has when the command takes effect, not when it arrives
+import sched
+sr = sched.run("single", tier, seed, maxpre=2 if tier == "quick" else 3, maxpre3=1 if tier == "quick" else 2, families=["deadline"])
+sched.decide(sr, v, "C06", cov)
 v.finish(tier, "model_checking", cov, ["real clock; one-second granularity: a key is certainly visible before its deadline second, certainly gone after it, either during it (deadline windows of KsCore.tla)",
                                        "deadlines of 1-3 s; TTL-setting commands are never issued in the last 200 ms of a second; no statement about clock jumps",
                                        "TTL replies may differ by one from the exact remaining seconds (rounding at one-second granularity)"])
